@@ -163,11 +163,37 @@ pub fn via_builder_opts(f: &FactSet, interleave: Option<&mut Rng>, defaults: boo
         }
         b.set_hpo_version(f.version);
         let mut b = b.terms_complete();
-        for (c, p) in &f.edges {
+        // a user's call history also holds calls that are refused (a term id that was never added):
+        // they are documented to fail and must leave no trace. Issued only when names vary, i.e. by the
+        // monitors that model a realistic history; the ids are absent by construction.
+        let present: std::collections::BTreeSet<u32> = f.terms.iter().map(|t| t.id).collect();
+        let absent = |salt: u64| -> u32 {
+            let mut x = 9_999_998u32.wrapping_sub((salt % 1000) as u32);
+            while present.contains(&x) {
+                x -= 1;
+            }
+            x
+        };
+        let refused_calls = vary_names && !f.terms.is_empty() && (calls.len() + f.edges.len()) % 4 == 0;
+        for (n, (c, p)) in f.edges.iter().enumerate() {
+            if refused_calls && n % 3 == 0 {
+                if b.add_parent(absent(n as u64), *c).is_ok() || b.add_parent(*p, absent(n as u64 + 1)).is_ok() {
+                    return Err(format!("add_parent with an absent term id was accepted (child {c}, parent {p})"));
+                }
+            }
             b.add_parent(*p, *c)
                 .map_err(|e| format!("add_parent({p},{c}): {e}"))?;
         }
         let mut b = b.connect_all_terms();
+        if refused_calls {
+            let a = HpoTermId::from_u32(absent(7));
+            if b.annotate_gene(GeneId::from(4_000_000_001u32), "refused", a).is_ok()
+                || b.annotate_omim_disease(OmimDiseaseId::from(4_000_000_002u32), "refused", a).is_ok()
+                || b.annotate_orpha_disease(OrphaDiseaseId::from(4_000_000_003u32), "refused", a).is_ok()
+            {
+                return Err("annotate_* with an absent term id was accepted".to_string());
+            }
+        }
         for (n, (k, i, t)) in calls.iter().enumerate() {
             let r = &f.recs[*k][*i];
             let name: &str = call_names[n].unwrap_or(r.name.as_str());
@@ -208,16 +234,17 @@ pub fn via_builder_opts(f: &FactSet, interleave: Option<&mut Rng>, defaults: boo
 /// the two entry points are documented to read the same format.
 pub fn from_bytes(bytes: &[u8]) -> Built {
     if crate::rng::hash_bytes(bytes) % 8 == 0 {
-        let dir = scratch_dir("bin");
+        // the path is reused by all loads of one worker thread (a user overwriting "ontology.hpo" with a
+        // newer release): what is loaded is what the file holds now
+        let dir = work_root().join(format!("bin-{}-{:?}", std::process::id(), std::thread::current().id()).replace(['(', ')'], ""));
         if std::fs::create_dir_all(&dir).is_ok() {
             let path = dir.join("ontology.hpo");
             if std::fs::write(&path, bytes).is_ok() {
                 let ps = path.to_string_lossy().to_string();
                 let res = flatten(guard(|| Ontology::from_binary(&ps).map_err(|e| e.to_string())));
-                let _ = std::fs::remove_dir_all(&dir);
+                let _ = std::fs::remove_file(&path);
                 return res;
             }
-            let _ = std::fs::remove_dir_all(&dir);
         }
     }
     flatten(guard(|| Ontology::from_bytes(bytes).map_err(|e| e.to_string())))
@@ -250,6 +277,27 @@ pub fn via_bytes_variant(f: &FactSet, version: u8, rng: &mut Rng) -> (Vec<u8>, B
     );
     let b = from_bytes(&bytes);
     (bytes, b)
+}
+
+/// Two files of equal length written one after the other to the SAME path and each loaded with
+/// `Ontology::from_binary` right after it was written
+pub fn from_binary_twice_same_path(first: &[u8], second: &[u8]) -> Option<(Built, Built)> {
+    let dir = scratch_dir("samepath");
+    std::fs::create_dir_all(&dir).ok()?;
+    let path = dir.join("ontology.hpo");
+    let ps = path.to_string_lossy().to_string();
+    let mut res = Vec::new();
+    for b in [first, second] {
+        if std::fs::write(&path, b).is_err() {
+            let _ = std::fs::remove_dir_all(&dir);
+            return None;
+        }
+        res.push(flatten(guard(|| Ontology::from_binary(&ps).map_err(|e| e.to_string()))));
+    }
+    let _ = std::fs::remove_dir_all(&dir);
+    let second = res.pop()?;
+    let first = res.pop()?;
+    Some((first, second))
 }
 
 pub fn as_bytes(ont: &Ontology) -> Result<Vec<u8>, PanicInfo> {
